@@ -466,6 +466,9 @@ def np_arange(it, *a, **k):
         sg = seg_between(a[0], a[1])
         if sg is not None:
             return SegRows(sg)
+    if len(a) == 1 and isinstance(a[0], SV) and z3.is_const(a[0].z) and a[0].z.decl().name().startswith("n@"):
+        sp = Space.get(a[0].z.decl().name()[2:])
+        return Arr(sp, SV(sp.i), True)          # the positions 0..n-1 of a row space
     if any(is_sym(x) or isinstance(x, Opaque) for x in a):
         if getattr(it, "lenient_numpy", False):
             return Opaque("np.arange(...)")
@@ -598,6 +601,18 @@ def isin(it, a, test):
         # axiom: the generic row's own value is a member
         m = z3.BoolVal(True) if test.mask is True else test.mask
         it.ctx.facts.append(z3.Implies(m, pred(to_z(test.e, to_z(a.e).sort()))))
+        # witness (Skolem function): a value found in the selection is the value of some selected row
+        az = to_z(a.e) if isinstance(a, Arr) else to_z(a)
+        wit = z3.Function("wit:" + pred.name(), az.sort(), I)(az)
+        ti = test.space.i
+        te = to_z(test.e, az.sort())
+        it.ctx.facts.append(z3.Implies(pred(az), z3.And(wit >= 0, wit < test.space.n, z3.substitute(m, (ti, wit)), z3.substitute(te, (ti, wit)) == az)))
+        if getattr(it, "quantified_witnesses", False):
+            # the same for every argument (needed when the membership formula is later instantiated for another element)
+            y = z3.Const("y!" + pred.name(), az.sort())
+            wy = z3.Function("wit:" + pred.name(), az.sort(), I)(y)
+            it.ctx.facts.append(z3.ForAll([y], z3.Implies(pred(y), z3.And(wy >= 0, wy < test.space.n, z3.substitute(m, (ti, wy)),
+                                                                       z3.substitute(te, (ti, wy)) == y)), patterns=[pred(y)]))
         return Arr(a.space, SV(pred(to_z(a.e))), a.mask) if isinstance(a, Arr) else SV(pred(to_z(a)))
     items = it.iterate(test)
     def f(e):
@@ -730,6 +745,14 @@ class LabelIndexer:
         col = self.col
         if col is None and isinstance(key, (LabelList, IndexVal)) and key.table is t:
             return t        # .loc[all labels]: all rows in table order
+        if col is None and isinstance(key, (Arr, Series)):
+            m = key.arr() if isinstance(key, Series) else key
+            if m.space is t.space and _is_boolish(m.e):
+                return FilteredTable(t, _mask_and(m.mask, truth_z(m.e)))
+        from .arrays import SetVal as _SetVal
+        if col is not None and isinstance(key, _SetVal):
+            # rows whose label belongs to the set (labels that do not exist select nothing: callers intersect with the index first)
+            return Arr(t.space, t.cols[col], key.mem(to_z(t.index_e)))
         if col is None:
             if not isinstance(key, tuple) or len(key) != 2:
                 raise EngineError(f".loc[{key!r}] without column")
@@ -820,6 +843,14 @@ class PosIndexer:
         if self.col is not None and isinstance(key, (int, SV)) and not isinstance(key, bool):
             return subst(t.cols[self.col], t.space.i, to_z(key, I))
         raise EngineError(".iloc/.iat access")
+
+    def sym_setitem(self, it, key, val):
+        t = self.table
+        if self.col is not None and isinstance(key, SV) and z3.eq(z3.simplify(to_z(key, I)), t.space.i) and is_scalar(val):
+            # .iat[i] = v inside the generic iteration over the rows: row i gets v
+            t.write(it, self.col, val, via="iat")
+            return
+        raise EngineError(".iloc/.iat store")
 
 
 def table_attr(it, t, name):
@@ -981,6 +1012,45 @@ def mat_attr(it, m, name):
     return NotImplemented
 
 
+def setval_attr(it, sv, name):
+    if name in ("difference", "intersection", "union"):
+        return Native(lambda it, o, **k: getattr(sv, name)(to_setval(it, o, sv.x)), name=name)
+    if name in ("tolist", "unique", "copy", "sort_values"):
+        return Native(lambda it, *a, **k: sv, name=name)
+    raise EngineError(f"set-valued cell .{name}")
+
+
+def to_setval(it, v, x=None):
+    """pd.Index(v) / a collection used as a set: membership of the generic element"""
+    from .arrays import SetVal
+    if isinstance(v, SetVal):
+        return v
+    if isinstance(v, (Series, IndexVal, LabelList)):
+        v = v.arr()
+    if isinstance(v, Arr):
+        z = to_z(v.e)
+        xx = x if x is not None else z3.Const(f"x@{_key(z)}", z.sort())
+        member = isin(it, Arr(Space.get("one"), SV(xx)), v)
+        return SetVal(xx, truth_z(member.e))
+    raise EngineError(f"cannot view {type(v).__name__} as a set")
+
+
+class IndexCtor:
+    """pd.Index(values): the values as a set (order and duplicates are not modelled)"""
+    __name__ = "Index"
+    py = None
+    typ = "Index"
+
+    def _pyvc_isinstance(self, x):
+        from .arrays import SetVal
+        return isinstance(x, (IndexVal, SetVal))
+
+    def fn(self, it, data=None, **k):
+        if isinstance(data, Opaque):
+            return Opaque("Index(...)")
+        return to_setval(it, data)
+
+
 def pyscalar_attr(it, x, name):
     if name == "astype":
         return Native(lambda it, t=None, **k: it.builtins["__astype__"](it, x, t), name="astype")
@@ -1003,6 +1073,8 @@ def cat_attr(it, c, name):
 def install(it):
     tabletheory.install(it)
     it.attr_hooks.append((Cat, cat_attr))
+    from .arrays import SetVal
+    it.attr_hooks.append((SetVal, setval_attr))
     it.attr_hooks.append((LabelList, labellist_attr))
     it.attr_hooks.append(((bool, int, float), pyscalar_attr))
     it.attr_hooks.append((Mat, mat_attr))
@@ -1020,7 +1092,7 @@ def install(it):
         "isnull": Native(_ew(s_isnan), name="isnull"), "isna": Native(_ew(s_isnan), name="isna"),
         "notnull": Native(_ew(lambda it, x: s_logical_not(it, s_isnan(it, x))), name="notnull"),
         "notna": Native(_ew(lambda it, x: s_logical_not(it, s_isnan(it, x))), name="notna"),
-        "Series": tabletheory.SeriesCtor(), "DataFrame": tabletheory.DataFrameCtor(), "Index": TypeTag("Index", None),
+        "Series": tabletheory.SeriesCtor(), "DataFrame": tabletheory.DataFrameCtor(), "Index": IndexCtor(),
     }, default=lambda attr: Opaque(f"pd.{attr}"))
     it.stub_modules["pandas"] = pd_ns
     return np_ns
